@@ -123,6 +123,8 @@ def _parse_xml_string(xml_string, parser, charset=None):
         except ValueError as e:
             logger.debug('ValueError: Deserializing from unicode strings with '
                          'encoding declaration is not supported by lxml.')
+            if charset is None:
+                charset = 'utf8'
             root, xmlids = etree.XMLID(string.encode(charset), parser)
 
     except XMLSyntaxError as e:
